@@ -130,6 +130,8 @@ class TreeSim(WorldBase):
             cfg["leaf_default"] = rng.choice([5, -1, 0.5, 2.5])
         if prop == "C05" and rng.random() < 0.2:
             cfg["leaf_default"] = rng.choice([5, -1, 2.5])
+        if prop == "C10" and rng.random() < 0.25:
+            cfg["leaf_default"] = rng.choice([0.5, 2.5, -1])
         if prop in ("C01", "C03") and rng.random() < 0.2:
             cfg["subtyped"] = True      # raw values handed to constructors / append / position assignment are of a derived type
         # swarm: op weights with dropout
@@ -304,6 +306,8 @@ class TreeSim(WorldBase):
                 if s in before and after.get(s) != before[s]:
                     self.V("C01", "C01.rejected-atomic", culprit,
                            f"slot {s} changed by a {culprit} that was rejected for coordinate order")
+                    self.V("C03", "C03.rejected-op-changes-nothing", culprit,
+                           f"slot {s}: a {culprit} rejected for coordinate order changed what the points read as")
         # --- structural invariants on every tensor
         for s, sl in self.slots.items():
             if sl.free:
@@ -500,6 +504,24 @@ class TreeSim(WorldBase):
         pre = dec_point(a.get("prefix", []))
         rest = dec_point(a["rest"])
         point = pre + rest
+        if a.get("toolong") and len(point) == sl.depth + 1 and not sl.free:
+            # a point with one coordinate too many: the call is rejected; what the tensor holds - and every handle a
+            # caller already has - stays as it was (elements the rejected call created on its way are at the default)
+            targets.add(s)
+            recv0 = ob.find_fiber(sl.root, pre) if pre else (sl.t if a.get("via", "t") == "t" else sl.root)
+            if recv0 is None:
+                raise Skip("prefix")
+            before_c = ob.content(sl.root, sl.default)
+            try:
+                recv0.getPayloadRef(*rest)
+            except Exception:
+                self.fault("rejected:too-many-coordinates")
+                if ob.content(sl.root, sl.default) != before_c:
+                    self.V("C03", "C03.rejected-op-changes-nothing", "ref",
+                           f"getPayloadRef{point} on a depth-{sl.depth} tensor was rejected but changed its content")
+                return {"status": "ok", "judged": True, "rejected": True}
+            return self.unexpected("C03", "ref", AssertionError("a point with too many coordinates was accepted"), s) \
+                if self.prop == "C03" else {"status": "exc:accepted"}
         if len(point) != sl.depth:
             raise Skip("arity")
         targets.add(s)
@@ -1924,6 +1946,8 @@ class TreeSim(WorldBase):
             v = sl.default
         a = {"slot": s, "prefix": enc_point(pre), "rest": enc_point(rest), "act": act, "v": v,
              "via": g.choice(["t", "root"])}
+        if self.prop in ("C03", "C01", "C02") and g.random() < 0.05 and rest and isinstance(rest[-1], int):
+            return ["op", "ref", dict(a, rest=enc_point(rest + (0,)), toolong=True, act="none")]
         if g.random() < 0.4:
             a["keep"] = True
         if len(rest) == 1:
